@@ -29,6 +29,7 @@ type mapCfg struct {
 	Layers []int  `json:"layers"`
 	Src    string `json:"src"`   // "random" | "tlc"
 	Marsh  string `json:"marsh"` // "" (default JSON) | "gob" (custom marshaler, registered types)
+	Cmp    bool   `json:"cmp"`   // a caller-supplied KeyCompare (same order as the default one)
 }
 
 type obsT struct {
@@ -126,6 +127,10 @@ func (r *mapRun) remoteCfg(withCache bool) *mast.RemoteConfig {
 	}
 	if r.cfg.Marsh == "gob" {
 		c.Marshal, c.Unmarshal, c.UnmarshalerUsesRegisteredTypes = gobMarshal, gobUnmarshal, true
+	}
+	if r.cfg.Cmp {
+		def := mast.DefaultKeyCompare(json.Marshal)
+		c.KeyCompare = func(a, b interface{}) (int, error) { return def(a, b) }
 	}
 	return c
 }
@@ -477,6 +482,7 @@ func randomMapTrace(id int, seed int64, steps int, out *json.Encoder, fixed *map
 			cfg.NF = "bin"
 			cfg.KT = []string{"int", "int64", "uint", "uint64", "string", "bytes", "userkey"}[rng.Intn(7)]
 		}
+		cfg.Cmp = rng.Intn(4) == 0 && cfg.KT != "struct"
 		if profile == "versions" {
 			// the shared cache is what makes versions meet in the same node objects
 			cfg.Cache = []string{"large", "large", "tiny", "none"}[rng.Intn(4)]
